@@ -531,6 +531,19 @@ func (b *builder) build(s *Spec, label string) gen.V {
 		f["Default"] = gen.Any(gen.TAnySlice(), g.Anys(gen.Any(gen.TString(), absint.HoleStr(b.atom(s, "RawStr", "default[0]", false)))))
 	case "emptyslice":
 		f["Default"] = gen.Any(gen.TAnySlice(), g.Anys())
+	case "partial":
+		// an object default that mentions only the FIRST TWO declared properties (by their concrete names), with integer values
+		var ks, vs []gen.V
+		for i, pp := range s.Props {
+			if i >= 2 || pp.Concrete == "" {
+				break
+			}
+			a := b.atom(s, "Float", "default."+pp.Concrete, true)
+			a.Facts["integral"] = "yes"
+			ks = append(ks, absint.Lit(pp.Concrete))
+			vs = append(vs, gen.Any(gen.TFloat64(), absint.Num{A: a, IsFloat: true}))
+		}
+		f["Default"] = gen.Any(gen.TAnyMap(), g.Map(ks, vs))
 	case "mapmap":
 		// a map default whose value is itself an object: {"<key>": {"<inner key>": "<text>"}}
 		k := absint.HoleStr(b.atom(s, "RawStr", "default key", false))
@@ -660,7 +673,12 @@ func (b *builder) build(s *Spec, label string) gen.V {
 		b.defVals = append(b.defVals, absint.Ptr{})
 	}
 	if s.RefRootOf != "" {
-		return g.Node(map[string]gen.V{"Ref": absint.Lit(s.RefRootOf)})
+		rf := map[string]gen.V{"Ref": absint.Lit(s.RefRootOf)}
+		if s.Default == "refname" {
+			// the referring node carries an object default {"name": <text>} for the referenced object type
+			rf["Default"] = gen.Any(gen.TAnyMap(), g.Map([]gen.V{absint.Lit("name")}, []gen.V{gen.Any(gen.TString(), absint.HoleStr(b.atom(s, "RawStr", "default.name", false)))}))
+		}
+		return g.Node(rf)
 	}
 	node := g.Node(f)
 	s.node = node
